@@ -8,6 +8,8 @@ hand-copied below; none of the repository's conversion functions is called by th
 """
 from __future__ import annotations
 
+import asyncio
+import contextvars
 import copy
 import json
 import os
@@ -34,7 +36,21 @@ RULE = ('case = cloud (gcp | azure, front_end.CLOUD patched per case) x generate
         'bogus, pool_label, preemptible, forbidden combinations, jvm process). Each request = one validate_and_clean_jobs + one '
         '_create_jobs call; result read back from jobs row + stored spec file. Non-trivial case: some accepted request was '
         'granted more cores than it asked for (memory-driven / packability adjustment) or had >= 2 matching candidate pools; '
-        'distinct by canonical case.')
+        'distinct by canonical case. '
+        'REQUESTS IN FLIGHT DURING THE PERIODIC REFRESH (generated-concurrency mode, as World.op_par does it for the SQL-level checks): 1 '
+        'request in 5 carries par = {sched, start, with?}: the front end\'s own periodic task body front_end._refresh(app) '
+        '(InstanceCollectionConfigs.refresh of the app\'s live configs object) and the _create_jobs call of that request - 1 in 4 times '
+        'together with a second job-creation request - run as concurrent asyncio tasks on the virtual loop; task i first yields start[i] '
+        'times (0-4; task 0 = the refresh), then every SQL statement any of them sends is a schedule point at which sched (0-6 ints 0-4 = '
+        'number of sleep(0) yields) decides who goes next. The pool rows are not touched. 3 in 4 of these requests are built to be held by '
+        'an existing pool of the case\'s cloud (packable cpu <= worker_cores, the pool\'s memory class or bytes within the per-core share of '
+        'a packable core count, small storage, the pool\'s label and preemptibility), the rest come from the general request generator. '
+        'Each answer is judged by the same oracle as a sequential one (in particular: rejected as unsatisfiable only if no configured '
+        'collection could hold it) and, unless the validator rejected it, the same request is then repeated sequentially (fresh job id, same '
+        'pool rows) and must get the same answer (status + documented cause, or collection + granted cores + stored resources); a refresh '
+        'that raises is a failure. Classes: refresh_with_requests_in_flight, one_/two_requests_during_refresh, request_during_refresh, '
+        'request_during_refresh_aimed_at_existing_pool, request_started_between_refresh_statements / '
+        'refresh_started_between_request_statements (the statements really alternated), same_answer_as_sequential.')
 ASSUMPTIONS = [
     'cpu requests are quantised to whole mcpu by floor (parse_cpu_in_mcpu contract, checked by C25); "granted cores >= request" is '
     'judged against that quantised value (a request such as "0.2505" is served with 250 mcpu; counted in class sub_mcpu_truncated)',
@@ -46,6 +62,9 @@ ASSUMPTIONS = [
     'azure is exercised by setting batch.front_end.front_end.CLOUD = "azure" for the case (the module constant is read from the '
     'environment at import); everything else is the unmodified front end',
     'transactions execute one at a time (minimysql); one request per _create_jobs call, update never committed',
+    'in-flight mode: interleavings are explored at SQL statement boundaries (and task arrival) of one front-end process; the refresh is '
+    'the only writer of the configuration object and the inst_colls / pools / resources / latest_product_versions rows do not change '
+    'while requests are in flight, so the sequential answer is the only acceptable one',
     'machine_type "" may be read either as an unknown machine type (400) or as no machine type; only a crash is reported for it',
     'a crash carrying the stack signature of one of the two known non-power-of-two-pool findings is attributed to that finding only when the '
     'finding\'s trigger holds by the oracle\'s own brute force: the request is resolved by pricing (no machine type, no named memory class) and '
@@ -53,7 +72,8 @@ ASSUMPTIONS = [
     'price_per_hour for that pool); the same crash outside the trigger is reported as granted-beyond-worker:* (class crash_outside_known_trigger)',
 ]
 TRUSTED = ['vlib/minimysql (jobs insert + triggers), vlib/batchsim World start-up', 'documented tables and brute-force feasibility '
-           'search in checks/c12.py', 'checks/c25.py reference recogniser/exact parser (independent of hailtop parse.py)']
+           'search in checks/c12.py', 'checks/c25.py reference recogniser/exact parser (independent of hailtop parse.py)',
+           'submit_during_refresh in checks/c12.py (concurrent tasks, engine.sched_hook schedule points, statement order by task context)']
 
 MIB = 1024 ** 2
 GIB = 1024 ** 3
@@ -425,8 +445,8 @@ def _crash_signature(e):
     return f'crash:{type(c).__name__}:{where}', f'{type(c).__name__}: {str(c)[:300]} at {where}'
 
 
-async def submit(w, case, bid, uid, idx, req, jar_prefix):
-    """One request through the real validator + _create_jobs.  -> outcome dict."""
+async def submit_call(w, case, bid, uid, idx, req, jar_prefix):
+    """One request through the real validator + _create_jobs.  -> outcome dict (kind 'ok' still without what was stored)."""
     m = w.m
     from hailtop.utils.validate import ValidationError
     from batch.front_end.validate import validate_and_clean_jobs
@@ -446,7 +466,15 @@ async def submit(w, case, bid, uid, idx, req, jar_prefix):
         if sig is None:
             raise
         return dict(kind='crash', signature=sig, message=msg)
-    jid = idx  # update 1 of a fresh batch starts at job id 1
+    return dict(kind='ok', jid=idx)      # update 1 of a fresh batch starts at job id 1
+
+
+async def readback(w, bid, out):
+    """what an accepted request left behind: the jobs row and the stored spec"""
+    if out['kind'] != 'ok':
+        return out
+    m = w.m
+    jid = out['jid']
     rows = w.q('SELECT inst_coll, cores_mcpu, spec, state FROM jobs WHERE batch_id = %s AND job_id = %s', (bid, jid))
     if len(rows) != 1:
         return dict(kind='ok', missing_row=True)
@@ -454,6 +482,101 @@ async def submit(w, case, bid, uid, idx, req, jar_prefix):
     stored = json.loads(await w.app['file_store'].read_spec_file(bid, token, start, jid))
     return dict(kind='ok', inst_coll=rows[0]['inst_coll'], cores_mcpu=rows[0]['cores_mcpu'], db_spec=json.loads(rows[0]['spec']),
                 resources=stored.get('resources'))
+
+
+async def submit(w, case, bid, uid, idx, req, jar_prefix):
+    return await readback(w, bid, await submit_call(w, case, bid, uid, idx, req, jar_prefix))
+
+
+# ------------------------------------------------------------------------------------------------------------------------
+# requests in flight while the front end's periodic refresh of the configuration runs
+_TAG = contextvars.ContextVar('verif_c12_task_tag', default=None)
+
+
+async def submit_during_refresh(w, case, bid, uid, items, jar_prefix, sched, starts):
+    """items: [(job index, request)] (one or two).  The front end's own periodic task body (front_end._refresh(app) ->
+    InstanceCollectionConfigs.refresh(db) of the app's configs object) and the job-creation calls run as concurrent asyncio tasks on the
+    world's virtual loop; task i first yields starts[i] times (task 0 = the refresh), then every SQL statement any of them sends is a
+    schedule point at which `sched` (small ints = number of sleep(0) yields) decides who goes next - as World.op_par does it.  The
+    pool rows are not touched.  -> (outcomes, refresh error | None, statement order [(tag, sql)])"""
+    m = w.m
+    sched = list(sched)
+    pos = [0]
+    order = []
+
+    async def shook(sess, sql):
+        k = sched[pos[0] % len(sched)] if sched else 0
+        pos[0] += 1
+        for _ in range(k):
+            await asyncio.sleep(0)
+
+    def fhook(sess, phase, sql):
+        if phase == 'statement':
+            order.append((_TAG.get(), ' '.join(str(sql).split())[:50]))
+
+    async def tagged(tag, delay, mk):
+        _TAG.set(tag)          # this task's context (and that of every task it spawns, e.g. the gather inside refresh)
+        for _ in range(delay):
+            await asyncio.sleep(0)
+        return await mk()
+
+    async def do_refresh():
+        f = getattr(m.fe, '_refresh', None)
+        if f is not None:
+            await f(w.app)
+        else:
+            await w.app['inst_coll_configs'].refresh(w.db)
+
+    def delay(i):
+        return int(starts[i]) if i < len(starts) else 0
+    eng = w.engine
+    saved_f, saved_s = eng.fault_hook, getattr(eng, 'sched_hook', None)
+    eng.fault_hook, eng.sched_hook = fhook, shook
+    try:
+        tr = asyncio.ensure_future(tagged('refresh', delay(0), do_refresh))
+        ts = [asyncio.ensure_future(tagged(f'req{j}', delay(j + 1),
+                                           lambda idx=idx, req=req: submit_call(w, case, bid, uid, idx, req, jar_prefix)))
+              for j, (idx, req) in enumerate(items)]
+        got = await asyncio.gather(tr, *ts, return_exceptions=True)
+    finally:
+        eng.fault_hook, eng.sched_hook = saved_f, saved_s
+    rerr = None
+    if isinstance(got[0], BaseException):
+        if _is_not_supported(got[0]) or not isinstance(got[0], Exception):
+            raise got[0]
+        sig, msg = _crash_signature(got[0])
+        if sig is None:
+            raise got[0]
+        rerr = (sig, msg)
+    outs = []
+    for o in got[1:]:
+        if isinstance(o, BaseException):
+            raise o
+        outs.append(await readback(w, bid, o))
+    return outs, rerr, order
+
+
+def same_answer(a, b):
+    """is the answer given while the refresh was in flight the one the same request gets sequentially?"""
+    if a['kind'] != b['kind']:
+        return False
+    if a['kind'] == 'http':
+        return a['status'] == b['status'] and classify_reason(a['reason']) == classify_reason(b['reason'])
+    if a['kind'] == 'crash':
+        return a['signature'] == b['signature']
+    if a['kind'] == 'ok':
+        return all(a.get(k) == b.get(k) for k in ('missing_row', 'inst_coll', 'cores_mcpu', 'resources'))
+    return True
+
+
+def _short(out):
+    if out['kind'] == 'ok':
+        return f"placed in {out.get('inst_coll')!r} with {out.get('cores_mcpu')} mcpu, resources {out.get('resources')}"
+    if out['kind'] == 'http':
+        return f"HTTP {out['status']} {out['reason']!r}"
+    if out['kind'] == 'crash':
+        return f"raised {out['message']}"
+    return f"validator: {out.get('reason')!r}"
 
 
 def judge(case, req, out):
@@ -664,17 +787,79 @@ async def _run(case):
             raise RuntimeError(f'harness: cannot create batch: {r}')
         bid = r['value']
         reqs = case['reqs']
-        uid, _sg, sj = await m.fe._create_batch_update(bid, 'c12', len(reqs), 0, 'u1', w.db)
+        n_par = sum(1 + 2 * int(isinstance(r['par'].get('with'), dict)) for r in reqs if r.get('par') is not None)
+        # job ids 1..len(reqs) for the requests, the ids after them for the sequential repetition of every request that was in flight
+        # together with a refresh
+        uid, _sg, sj = await m.fe._create_batch_update(bid, 'c12', len(reqs) + n_par, 0, 'u1', w.db)
         if sj != 1:
             raise RuntimeError(f'harness: unexpected start job id {sj}')
-        for k, req in enumerate(reqs):
-            out = await submit(w, case, bid, uid, k + 1, req, m.fe.ACCEPTABLE_QUERY_JAR_URL_PREFIX)
-            cls, nt, fl = judge(case, req, out)
+        jar = m.fe.ACCEPTABLE_QUERY_JAR_URL_PREFIX
+        nxt = len(reqs)
+
+        def take(cls, nt, fl, ctxt=''):
+            nonlocal nontrivial
             classes.extend(cls)
             nontrivial = nontrivial or nt
             for f in fl:
                 if f[0] not in [g[0] for g in fails]:
-                    fails.append(f)
+                    fails.append((f[0], f[1], f[2] + ctxt))
+        k = 0
+        while k < len(reqs):
+            req = reqs[k]
+            par = req.get('par')
+            if par is None:
+                out = await submit(w, case, bid, uid, k + 1, req, jar)
+                take(*judge(case, req, out))
+                k += 1
+                continue
+            # ---- this request (and the next one, if it joins) is in flight while the periodic refresh runs; pool rows unchanged
+            items = [(k + 1, req)]
+            if isinstance(par.get('with'), dict):
+                nxt += 1
+                items.append((nxt, par['with']))
+            sched, starts = par.get('sched') or [], par.get('start') or []
+            outs, rerr, order = await submit_during_refresh(w, case, bid, uid, items, jar, sched, starts)
+            tags = [t for t, _q in order]
+            rpos = [i for i, t in enumerate(tags) if t == 'refresh']
+            ctxt = (f' [request in flight together with InstanceCollectionConfigs.refresh: arrival delays {list(starts)}, yields per '
+                    f'statement {list(sched)}; statements in the order sent: {order}]')
+            classes.append('refresh_with_requests_in_flight')
+            if 'case_with_refresh_in_flight' not in classes:
+                classes.append('case_with_refresh_in_flight')
+            classes.append({1: 'one_request_during_refresh', 2: 'two_requests_during_refresh'}[len(items)])
+            if rerr is not None:
+                take(['refresh_crashed'], False, [('refresh-crash:' + rerr[0].split(':', 1)[-1], 'the periodic refresh of an unchanged '
+                                                  'configuration succeeds', f'refresh raised {rerr[1]}')], ctxt)
+            aimed = 0
+            for j, ((idx, rq), out) in enumerate(zip(items, outs)):
+                cls, nt, fl = judge(case, rq, out)
+                cls.append('request_during_refresh')
+                mine = [i for i, t in enumerate(tags) if t == f'req{j}']
+                if mine and rpos and rpos[0] < mine[0] < rpos[-1]:
+                    cls.append('request_started_between_refresh_statements')
+                elif mine and rpos and mine[0] < rpos[0] < mine[-1]:
+                    cls.append('refresh_started_between_request_statements')
+                pit, pcands = pricing_view(case, rq) if wellformed(rq) else (None, [])
+                if pit is not None and any(feasible_in_pool(case['cloud'], p, pit) is not None for _, p in pcands):
+                    cls.append('request_during_refresh_aimed_at_existing_pool')
+                    aimed += 1
+                take(cls, nt, fl, ctxt)
+                if out['kind'] == 'validator' or fl:
+                    continue
+                # the same request again, sequentially, against the same pool rows: the answer must be the same
+                nxt += 1
+                out2 = await submit(w, case, bid, uid, nxt, rq, jar)
+                if not same_answer(out, out2):
+                    take(['answer_differs_during_refresh'], False,
+                         [('refresh-changes-answer:' + out['kind'] + '-vs-' + out2['kind'],
+                           'a request handled while the periodic refresh re-reads an unchanged configuration is answered as it is answered '
+                           'without the refresh', f'during the refresh: {_short(out)}; sequentially afterwards, same pool rows: {_short(out2)}; '
+                           f'cloud={case["cloud"]} request={json.dumps(rq, sort_keys=True)}; pools={json.dumps(case["pools"])}')], ctxt)
+                else:
+                    classes.append('same_answer_as_sequential')
+            if aimed:
+                classes.append('refresh_with_request_aimed_at_existing_pool')
+            k += 1
     finally:
         m.fe.CLOUD = saved_cloud
         await w.close()
@@ -862,8 +1047,57 @@ def strategies(cloud):
             return pick(draw, STORAGE_BIG)
         return gen_number(draw) + pick(draw, ['', 'Ki', 'Mi', 'Gi', 'G', 'Ti', 'T']) + pick(draw, ['', '', 'B'])
 
+    def gen_placeable(draw, p):
+        """a request that pool p can hold, by construction: packable cpu <= worker_cores, the pool's own memory class or a byte count
+        within the per-core share of some packable core count, small storage, the pool's label and preemptibility"""
+        per = DOC[p['cloud']]['per_core_mib'][p['wt']] * MIB
+        pack = []
+        c = 250
+        while c <= p['cores'] * 1000:
+            pack.append(c)
+            c *= 2
+        mine = [k for k, v in DOC[p['cloud']]['memclass'].items() if v == p['wt']]
+        res = {}
+        k = draw(upto(5))
+        cpu = pick(draw, pack[:draw(upto(len(pack) - 1)) + 1])
+        if k != 5:
+            res['cpu'] = mcpu_str(cpu, draw(upto(5)))
+        else:
+            cpu = 1000
+        if k in (0, 1, 5):
+            res['memory'] = pick(draw, mine)
+        elif k in (2, 3):
+            c2 = pick(draw, [x for x in pack if x >= cpu])             # memory-driven: needs c2 >= cpu cores of this pool
+            res['memory'] = mem_str(max(1, c2 * per // 1000 - draw(upto(3)) * MIB), draw(upto(7)))
+        else:
+            res['memory'] = mem_str(max(1, cpu * per // 1000 - draw(upto(2))), draw(upto(3)))
+        if draw(upto(2)) == 0:
+            res['storage'] = pick(draw, ['0', '10Gi', '1Gi', '20Gi', '100Gi', '375Gi'])
+        if p['label'] or draw(upto(1)):
+            res['pool_label'] = p['label']
+        if not p['pre'] or draw(upto(1)):
+            res['preemptible'] = bool(p['pre'])
+        return {'res': res, 'jvm': False}
+
     @st.composite
     def req_st(draw, pools):
+        # 1 request in 5 is IN FLIGHT TOGETHER WITH THE PERIODIC REFRESH of the configuration (its own generated schedule); 3 in 4 of
+        # those are aimed at an existing pool of the case's cloud and can be held by it, by construction
+        mode = draw(upto(9))
+        if mode < 8:
+            return req_body(draw, pools)
+        own = [q for q in pools if q['cloud'] == cloud]
+        if own and draw(upto(3)) < 3:
+            r = gen_placeable(draw, own[draw(upto(len(own) - 1))])
+        else:
+            r = req_body(draw, pools)
+        r['par'] = {'sched': [draw(upto(4)) for _ in range(draw(upto(6)))], 'start': [draw(upto(4)), draw(upto(4)), draw(upto(4))]}
+        if draw(upto(3)) == 0:
+            # a second job-creation request in flight at the same time
+            r['par']['with'] = gen_placeable(draw, own[draw(upto(len(own) - 1))]) if own and draw(upto(1)) else req_body(draw, pools)
+        return r
+
+    def req_body(draw, pools):
         shape = draw(upto(23))
         if shape == 0:
             return {'res': pick(draw, [None, {}]), 'jvm': bool(draw(upto(1)))}
